@@ -20,6 +20,13 @@ using EBR = r::epoch_based<>::with<p::scan_frequency<1>>;
 using NEBR = r::new_epoch_based<>::with<p::scan_frequency<1>>;
 using DEBRA = r::debra<>::with<p::scan_frequency<1>>;
 using EBR0 = r::epoch_based<>::with<p::scan_frequency<0>>;
+// further generic_epoch_based configurations (region extension x scan strategy x abandon strategy)
+using GEBR_lazy = r::generic_epoch_based<>::with<p::scan_frequency<1>, p::scan<r::scan::all_threads>, p::region_extension<r::region_extension::lazy>>;
+using GEBR_n2 = r::generic_epoch_based<>::with<p::scan_frequency<0>, p::scan<r::scan::n_threads<2>>, p::region_extension<r::region_extension::none>>;
+using GEBR_aband = r::generic_epoch_based<>::with<p::scan_frequency<1>, p::abandon<r::abandon::always>, p::region_extension<r::region_extension::none>>;
+using GEBR_thresh = r::generic_epoch_based<>::with<p::scan_frequency<1>, p::abandon<r::abandon::when_exceeds_threshold<1>>, p::region_extension<r::region_extension::eager>>;
+using EBR100 = r::epoch_based<>;
+using LFRCtl = r::lock_free_ref_count<>::with<p::thread_local_free_list_size<2>>;
 using QSBR = r::quiescent_state_based;
 using STAMP = r::stamp_it;
 using LFRC = r::lock_free_ref_count<>;
